@@ -229,24 +229,43 @@ def hd_syms(f, header):
     return ptrs, ints
 
 
-def data_loops(f, ps):
-    """heads of the loops whose trip count depends on the data length, in program order (a bulk loop processing several
-    words per iteration may precede the word loop)"""
-    heads = []
+def data_chains(f, ps):
+    """the loops whose trip count depends on the data length, as chains in program order (a bulk loop processing several words per
+    iteration may precede the word loop).  Code that tests the alignment of its buffers (or the size of the message) may enter
+    different loops: one chain per first loop, each with the paths that belong to it"""
     entry = [p for p in ps if p.end[0] == "loop-entry" and p.blocks and p.blocks[0] == 0]
     if not entry:
         raise Broken("%s: no path from the function entry reaches a data loop: unrecognised shape" % f.name)
-    cur = entry[0].end[1]
-    while cur is not None and cur not in heads:
-        heads.append(cur)
-        nxt = {p.end[1] for p in ps if p.end[0] == "loop-entry" and p.blocks and p.blocks[0] == cur and p.end[1] != cur}
-        if len(nxt) > 1:
-            raise Broken("%s: a data loop is followed by %d alternative loops: unrecognised shape" % (f.name, len(nxt)))
-        cur = next(iter(nxt)) if nxt else None
+    firsts = []
+    for p in entry:
+        if p.end[1] not in firsts:
+            firsts.append(p.end[1])
+    chains = []
+    covered = set()
+    for h0 in firsts:
+        heads = []
+        cur = h0
+        while cur is not None and cur not in heads:
+            heads.append(cur)
+            nxt = {p.end[1] for p in ps if p.end[0] == "loop-entry" and p.blocks and p.blocks[0] == cur and p.end[1] != cur}
+            if len(nxt) > 1:
+                raise Broken("%s: a data loop is followed by %d alternative loops: unrecognised shape" % (f.name, len(nxt)))
+            cur = next(iter(nxt)) if nxt else None
+        covered |= set(heads)
+        sub = [p for p in ps if (p.blocks and p.blocks[0] in heads) or (p.blocks and p.blocks[0] == 0 and (p.end[0] != "loop-entry" or p.end[1] == h0)) or not p.blocks]
+        chains.append({"heads": heads, "ps": sub})
     allh = {p.end[1] for p in ps if p.end[0] in ("loop-entry", "backedge")}
-    if allh != set(heads) or any(p.end[1] != entry[0].end[1] for p in entry):
-        raise Broken("%s: the loops that depend on the data length do not form one chain from the function entry (%d found, %d chained): unrecognised shape" % (f.name, len(allh), len(heads)))
-    return heads
+    if allh != covered:
+        raise Broken("%s: the loops that depend on the data length do not form chains from the function entry (%d found, %d chained): unrecognised shape" % (f.name, len(allh), len(covered)))
+    return chains
+
+
+def data_loops(f, ps):
+    """heads of the single chain of data loops (callers that do not handle alternatives)"""
+    ch = data_chains(f, ps)
+    if len(ch) != 1:
+        raise Broken("%s: %d alternative chains of data loops: unrecognised shape" % (f.name, len(ch)))
+    return ch[0]["heads"]
 
 
 def word_steps(r):
@@ -328,9 +347,63 @@ def check_setup(ck, mod, ks, label, rulemap):
     di = f.param_index("domain")
     ex, ps = run_paths(f, klen, word_args=[di] if di is not None else [])
     rets = [p for p in ps if p.end[0] == "ret"]
-    if len(ps) != 1 or len(rets) != 1:
-        raise Broken("%s: expected a single straight path, found %d" % (f.name, len(ps)))
-    p = rets[0]
+    if len(rets) != len(ps) or not rets:
+        raise Broken("%s: expected straight paths, found %d paths of which %d return (a loop over data of unknown length?)" % (f.name, len(ps), len(rets)))
+    n = 0
+    for i_, p in enumerate(rets):
+        # (one path per class the code distinguishes - e.g. the alignment of the nonce pointer: every class must conform)
+        cc_ = c if len(rets) == 1 else Ctx(ck, f, "%s/path-class-%d-of-%d" % (label, i_ + 1, len(rets)), rulemap)
+        n += _check_setup_path(cc_, f, ex, p, klen, di)
+    return n
+
+
+def check_setup_function(ck, mod, ks, label, rulemap):
+    """RELATIONAL premise of the round trip (nothing is compared with the specification): the shared setup function computes the same
+    state from (key words, domain, the twelve nonce BYTES) on every path class it distinguishes (alignment of the nonce pointer ...),
+    so that encrypt and decrypt - called with the same nonce at different addresses - start from the same state; and (SETUPSENS) every
+    nonce bit enters that state, a necessary condition for a modified nonce to be rejected"""
+    klen = int(ks)
+    f = mod.fn("tinyjambu_setup_%s" % ks)
+    c = Ctx(ck, f, label, rulemap)
+    di = f.param_index("domain")
+    ex, ps = run_paths(f, klen, word_args=[di] if di is not None else [])
+    rets = [p for p in ps if p.end[0] == "ret"]
+    if len(rets) != len(ps) or not rets:
+        raise Broken("%s: expected straight paths, found %d paths of which %d return" % (f.name, len(ps), len(rets)))
+    st = ("arg", 0)
+
+    def sig(p):
+        P = [e for e in p.events if e[0] == "P"]
+        fin = mode.state_obj_words(ex, p, st, 4)
+        words = [w for e in P for w in e[3]] + [tuple(w) for w in fin]
+        if any(b is gf2.TOP for w in words for b in w):
+            raise Broken("%s: a path computes state bits the bit-provenance domain cannot represent" % f.name)
+        return tuple((e[6], e[2], e[3], e[4]) for e in P), tuple(tuple(w) for w in fin)
+    sigs = [sig(p) for p in rets]
+    bad = [i for i, s_ in enumerate(sigs) if s_ != sigs[0]]
+    c.ob(not bad, "SETUPFN", "setup-paths-agree", "all %d path class(es) of the setup function run the same permutation calls on the same inputs and leave the same state, as terms over key, domain "
+         "and nonce bytes" % len(rets), "path class(es) %s of %d compute a different state from the same nonce bytes than class 1 (the result depends on where the nonce is stored): %s"
+         % ([i + 1 for i in bad], len(rets), mode.first_diff([list(w) for w in sigs[bad[0]][1]], [list(w) for w in sigs[0][1]]) if bad else ""))
+    nonce = ("arg", f.param_index("nonce"))
+    n = 1
+    for i, (pe, fin) in enumerate(sigs):
+        memo = {}
+        sup = set()
+        for (_nm, _r, sin, _k) in pe:
+            for w in sin:
+                for b in w:
+                    sup |= gf2.support(b, memo)
+        for w in fin:
+            for b in w:
+                sup |= gf2.support(b, memo)
+        miss = [(k, b) for k in range(12) for b in range(8) if (("mem", nonce, k), b) not in sup]
+        c.ob(not miss, "SETUPSENS", "setup-nonce-sensitive#%d" % (i + 1), "every bit of the 12 nonce bytes enters the state (path class %d)" % (i + 1),
+             "nonce byte/bit %s never enter the state on path class %d of %d: a nonce modified there is accepted" % (miss[:3], i + 1, len(rets)))
+        n += 1
+    return n
+
+
+def _check_setup_path(c, f, ex, p, klen, di):
     D = gf2.wzext(gf2.sym_word(("argw", di), 8), 32)
     P = [e for e in p.events if e[0] == "P"]
     n = 0
@@ -534,12 +607,23 @@ def check_cipher(ck, mod, f, label, rulemap):
     klen = int(ks)
     nk = klen // 32
     c = Ctx(ck, f, label, rulemap)
-    names = spec_names(ks, kind)
     ex, ps = run_paths(f, klen)
     if narrowings(c, f, ps):
         return 1
+    chains = data_chains(f, ps)
+    n = 0
+    for i_, ch_ in enumerate(chains):
+        # (code that tests buffer alignment or message size may choose between alternative loops: each alternative is checked on its own)
+        cc_ = c if len(chains) == 1 else Ctx(ck, f, "%s/loops-%d-of-%d" % (label, i_ + 1, len(chains)), rulemap)
+        n += _check_chain(cc_, mod, f, ex, ch_["ps"], ch_["heads"], ks, kind, direction)
+    return n
+
+
+def _check_chain(c, mod, f, ex, ps, heads, ks, kind, direction):
+    klen = int(ks)
+    nk = klen // 32
+    names = spec_names(ks, kind)
     c.defer()
-    heads = data_loops(f, ps)
     LI = {}
     idx_style = False
     for h_ in heads:
